@@ -59,6 +59,8 @@ def monitor(case, tr, raw):
                 if val == 1 and not first and f in ctx and ctx[f][0] == 'live' and ctx[f][1] != t:
                     return "fiber %d marked RUNNING by thread %d while it is executing on thread %d" % (f, t, ctx[f][1])
             continue
+        if kind == 909 and 1000 <= loc < 1100 and val == 78:
+            return "fiber %d: a writer held the rwlock together with another writer or a reader" % (loc - 1000)
         if kind == 909 and 1000 <= loc < 1100 and val == 77:
             return "fiber %d returned from fiber_multi_signal_wait although the signal had not been raised for it" % (loc - 1000)
         if kind != 919:
@@ -192,7 +194,7 @@ def gen_cases(ctx, tier):
         for _f in range(nf):
             p = []
             for _ in range(rng.randint(1, 6)):
-                opc = rng.choice([1, 1, 2, 3, 2, 3, 4, 5, 6, 7, 8, 9, 9, 9, 10, 10, 11, 12, 13, 13, 14, 14, 15, 15, 16, 17, 17, 18, 18, 18, 19, 19, 20, 20])
+                opc = rng.choice([1, 1, 2, 3, 2, 3, 4, 5, 6, 7, 8, 9, 9, 9, 10, 10, 11, 12, 13, 13, 14, 14, 15, 15, 16, 17, 17, 18, 18, 18, 19, 19, 20, 20, 21, 21, 22])
                 p.append((opc, rng.randint(0, 1)))
             progs.append(p)
         length = rng.randint(50, 2500)
